@@ -253,6 +253,20 @@ class C04(core.Property):
                                         seed=seed, skip_shuffle=skip)))]
       if again != ids:
         problems.append('fixed seed: second iteration of the same view differs')
+      # two live iterations over one view object must each be the seeded stream
+      pairs = list(itertools.islice(zip(view, view), limit))
+      za = [[int(i) for i in a['id']] for a, _ in pairs]
+      zb = [[int(i) for i in b['id']] for _, b in pairs]
+      if za != ids[:len(za)] or zb != ids[:len(zb)] or len(pairs) != len(ids):
+        problems.append('fixed seed: zip(view, view) is not two copies of the seeded stream '
+                        '(concurrent iterators over one view disturb each other)')
+      it1 = iter(view)
+      head = [[int(i) for i in b['id']] for b in itertools.islice(it1, 2)]
+      mid = [[int(i) for i in b['id']] for b in take(view)]       # a full pass while it1 is suspended
+      tail = [[int(i) for i in b['id']] for b in itertools.islice(it1, max(0, limit - 2))]
+      if mid != ids or head + tail != ids:
+        problems.append('fixed seed: a pass started while another iterator of the same view is suspended '
+                        'disturbs one of them')
       if fresh != ids:
         problems.append('fixed seed: hparams-object form / a fresh view differs')
     if any(not np.array_equal(raw[k], snap[k]) for k in snap) or set(raw) != set(snap):
